@@ -2599,6 +2599,7 @@ class GreedyRange(Subconstruct):
     def _parse(self, stream, context, path):
         discard = self.discard
         obj = ListContainer()
+        fallback = None
         try:
             for i in itertools.count():
                 context._index = i
@@ -2611,6 +2612,8 @@ class GreedyRange(Subconstruct):
         except ExplicitError:
             raise
         except Exception:
+            if fallback is None:
+                raise
             stream_seek(stream, fallback, 0, path)
         return obj
 
